@@ -599,6 +599,46 @@ func init() {
 							"progs": [][]N{{st(N{"k": "tmpl", "q": style, "pp": false, "parts": []N{litp("a"), hole(true, asg), litp("c"), hole(false, st(vr("x"))), litp("d"), hole(false, st(vr("x")))}})}}})
 					}
 				}
+				// a piece is fixed when its hole ends: whatever kind of value the hole had (array, dict, a container reached through
+				// another one, the value of an assignment in a block), a later hole or a template nested in a later hole that changes
+				// the container does not reach back into the text assembled so far
+				dictOf := func(key string, val N) N {
+					return N{"k": "dict", "kv": []N{{"key": N{"k": "str", "c": []string{key}, "q": 1, "pp": false}, "val": val}}, "pp": false}
+				}
+				setAttr := func(v, a string, e N) N { return st(N{"k": "assignAttr", "n": v, "a": a, "ac": chars(a), "e": e, "pp": false}) }
+				setIdx := func(v string, i int, e N) N { return st(N{"k": "assignIdx", "o": vr(v), "i": lit(i), "e": e, "pp": false}) }
+				asgn := func(v string, e N) N { return st(N{"k": "assign", "n": v, "e": e, "pp": false}) }
+				zid := 930000
+				for style := 3; style <= 4; style++ {
+					tm := func(parts ...N) N { return N{"k": "tmpl", "q": style, "pp": false, "parts": parts} }
+					inner := func(parts ...N) N { return N{"k": "tmpl", "q": 7 - style, "pp": false, "parts": parts} }
+					x := hole(false, st(vr("x")))
+					progs := [][]N{
+						// dict shown, changed by a later block, shown again
+						{asgn("x", dictOf("k", lit(1))), st(tm(x, hole(true, setAttr("x", "k", lit(2))), x))},
+						{asgn("x", dictOf("k", lit(1))), st(tm(litp("a"), x, litp("b"), hole(true, setAttr("x", "zz", arr(lit(1)))), litp("b"), x, hole(true, setAttr("x", "k", lit(3))), x, litp("c")))},
+						// the value of a block hole is the dict it assigned; the next block changes it
+						{st(tm(litp("a"), hole(true, asgn("x", dictOf("k", lit(1)))), litp("b"), hole(true, setAttr("x", "k", lit(2))), litp("c")))},
+						// changed by a template nested in a later hole
+						{asgn("x", dictOf("k", lit(1))), st(tm(x, hole(false, st(inner(hole(true, setAttr("x", "k", lit(5)))))), x))},
+						{st(tm(hole(true, asgn("x", dictOf("k", lit(1)))), hole(false, st(inner(litp("a"), hole(true, setAttr("x", "k", lit(5))), x)))))},
+						// a dict holding an array, the entry replaced
+						{asgn("x", dictOf("k", arr(lit(1)))), st(tm(x, hole(true, setAttr("x", "k", lit(7))), x))},
+						// array shown, changed, shown
+						{asgn("x", arr(lit(1), lit(2))), st(tm(x, hole(true, setIdx("x", 0, lit(9))), x))},
+						{asgn("x", arr(lit(1), lit(2))), st(tm(x, hole(false, st(inner(hole(true, setIdx("x", 1, arr(lit(0))))))), x))},
+						// a container reached through the one shown: y inside x, y changed
+						{asgn("y", dictOf("k", lit(1))), asgn("x", arr(vr("y"))), st(tm(x, hole(true, setAttr("y", "k", lit(2))), x))},
+						{asgn("y", arr(lit(1))), asgn("x", dictOf("k", vr("y"))), st(tm(x, hole(true, setIdx("y", 0, lit(2))), x))},
+						{asgn("y", dictOf("k", lit(1))), asgn("x", dictOf("in", vr("y"))), st(tm(x, hole(true, setAttr("y", "k", lit(2))), litp("-"), x))},
+						// the template's value kept in a variable, the containers read afterwards
+						{asgn("x", dictOf("k", lit(1))), asgn("w", tm(x, hole(true, setAttr("x", "k", lit(2))))), st(arr(vr("w"), vr("x")))},
+					}
+					for _, pr := range progs {
+						zid++
+						w.Write(N{"id": zid, "cfg": N{"div0": false, "mode": -1, "fuel": 40, "loopmax": 12}, "faces": []int{}, "progs": [][]N{pr}})
+					}
+				}
 			}
 			// nesting depth around the limit: accepted-and-correct or rejected, never wrong
 			for depth := 1; depth <= 23; depth++ {
